@@ -141,12 +141,13 @@ theorem peg_request_row_tells_the_payment (P : Params) (h : Nat) (rates : TMap) 
         refund P.act.pip10 h (toInt64 rq.tx.inAmount) (toInt64 y) (rates.get rq.tx.inType) (rates.get rq.tx.conversion))] :=
   pegRequest_row_records_payment P h rates rq y s s' hr
 
-/-- **The two history tables stay consistent along every chain**: every recorded action (row of
-    `pn_history_transaction`) belongs to a recorded batch (row of `pn_history_txbatch` with its hash),
-    whatever the blocks contain and whether they commit or fail. -/
+/-- **The history tables stay consistent along every chain**: every recorded action (row of
+    `pn_history_transaction`) and every held entry belongs to a recorded batch (row of
+    `pn_history_txbatch` with its hash), whatever the blocks contain and whether they commit or fail. -/
 theorem every_action_belongs_to_a_batch (P : Params) (chain : List Block) :
-    ∀ r ∈ (runBlocks P (freshNode P) chain).db.histT, (runBlocks P (freshNode P) chain).db.isRecorded r.hash = true :=
-  runBlocks_histOK P _ chain (histOK_fresh P)
+    (∀ r ∈ (runBlocks P (freshNode P) chain).db.histT, (runBlocks P (freshNode P) chain).db.isRecorded r.hash = true) ∧
+    (∀ r ∈ (runBlocks P (freshNode P) chain).db.holding, (runBlocks P (freshNode P) chain).db.isRecorded r.entry.hash = true) :=
+  runBlocks_histHoldOK P _ chain (histHoldOK_fresh P)
 
 end Pegnet.C17
 
